@@ -38,7 +38,20 @@ TBPY = "wannierberri/system/system_tb_py.py"
 FDIF = "wannierberri/system/__finite_differences.py"
 SKP = "wannierberri/system/system_kp.py"
 DKKF = "wannierberri/data_K/data_K_k.py"
+KNB = "wannierberri/wannierisation/kpoint_and_neighbours.py"
+WANF = "wannierberri/wannierisation/wannierise.py"
 MUTANTS = [
+    dict(prop="C24", name="nWfree ignores the frozen bands", file=KNB, old="        self.nWfree = self.num_wann - sum(frozen)", new="        self.nWfree = self.num_wann - 0 * sum(frozen)"),
+    dict(prop="C24", name="rotate_to_projections: free block placed from column 0", file=KNB, old="        U[self.free, self.nfrozen:] = U_opt_free\n        U_loc = U[self.selected, :].copy()", new="        U[self.free, :self.num_wann - self.nfrozen] = U_opt_free\n        U_loc = U[self.selected, :].copy()"),
+    dict(prop="C24", name="rotate_to_projections: result written to all bands", file=KNB, old="        U[:] = 0\n        U[self.selected] = U_loc.dot(ZV)", new="        U[:] = 0\n        U[-U_loc.shape[0]:] = U_loc.dot(ZV)"),
+    dict(prop="C24", name="calc_Z: weights dropped", file=KNB, old="Z = np.array(sum(wb * mmn.dot(mmn.T.conj()) for wb, mmn in zip(self.wb, Mmn_loc_opt)))", new="Z = np.array(sum(mmn.dot(mmn.T.conj()) for wb, mmn in zip(self.wb, Mmn_loc_opt)))"),
+    dict(prop="C24", name="update: Z mixing ratio swapped", file=KNB, old="            Z = mix_ratio * Z + (1 - mix_ratio) * self.Zold", new="            Z = (1 - mix_ratio) * Z + mix_ratio * self.Zold"),
+    dict(prop="C24", name="update: frozen Z forgotten", file=KNB, old="        Z = self.calc_Z(U_nb_free) + self.Zfrozen", new="        Z = self.calc_Z(U_nb_free)"),
+    dict(prop="C24", name="update(localise): frozen unit vectors on all columns", file=KNB, old="            U_opt_full[self.frozen, range(self.nfrozen)] = 1.\n            U_opt_full[self.free, self.nfrozen:] = self.U_opt_free\n            Mmn_loc", new="            U_opt_full[self.frozen, :] = 1.\n            U_opt_full[self.free, self.nfrozen:] = self.U_opt_free\n            Mmn_loc"),
+    dict(prop="C24", name="get_max_eig: smallest eigenvalues", file=U_, old="    return v[:, np.argsort(e)[nBfree - nvec:nBfree]]", new="    return v[:, np.argsort(e)[:nvec]]"),
+    dict(prop="C24", name="orthogonalize: singular values kept", file=U_, old="        return U @ VT\n", new="        return (U * _) @ VT\n"),
+    dict(prop="C24", name="wannierise: bands INSIDE the outer window deselected", file=WANF, old="    deselected = vectorize(np.logical_and, np.logical_not(selected_bands), free, to_array=True)", new="    deselected = vectorize(np.logical_and, selected_bands, free, to_array=True)"),
+    dict(prop="C24", name="wannierise: explicit frozen states of a dict applied to every k-point", file=WANF, old="                for ib in frozen_ik:\n                    frozen[iki, ib] = True", new="                for ib in frozen_ik:\n                    frozen[:, ib] = True"),
     dict(prop="C31", name="Derivative3D: reduced instead of Cartesian b", file=FDIF, old="        return sum(wk * self.function(k + bk_red)[..., None] * bk_cart\n                for wk, bk_red, bk_cart in zip(self.wk, self.bk_red, self.bk_cart))", new="        return sum(wk * self.function(k + bk_red)[..., None] * bk_red.reshape((1,) * (bk_cart.ndim - 1) + (3,))\n                for wk, bk_red, bk_cart in zip(self.wk, self.bk_red, self.bk_cart))"),
     dict(prop="C31", name="Derivative3D: evaluates at k - b", file=FDIF, old="self.function(k + bk_red)[..., None] * bk_cart", new="self.function(k - bk_red)[..., None] * bk_cart"),
     dict(prop="C31", name="find_shells: weights not rescaled (revert of half the fix)", file=FDIF, old="if abs(w) > 1e-8]) / scale**2\n", new="if abs(w) > 1e-8])\n"),
@@ -64,7 +77,6 @@ MUTANTS = [
     dict(prop="C07", name="symmetrize: not normalised", file=PSY, old="        return sum(result.transform(s) for s in self.symmetries) / self.size\n\n    def gen_symmetric_tensor", new="        return sum(result.transform(s) for s in self.symmetries)\n\n    def gen_symmetric_tensor"),
     dict(prop="C07", name="paralfunc: symmetrisation when NOT requested", file=RG, old="        if symmetrize:\n            result = _system.pointgroup.symmetrize(result)", new="        if not symmetrize:\n            result = _system.pointgroup.symmetrize(result)"),
     dict(prop="C07", name="transform_tensor: TR branch applies the inversion transform", file=PSY, old="        if self.TR:\n            transformTR(res)\n        if self.Inv:\n            transformInv(res)", new="        if self.TR:\n            transformInv(res)\n        if self.Inv:\n            transformInv(res)"),
-    dict(prop="C07", name="absorb: factor not added", file=KP, old="        self.factor += other.factor", new="        self.factor += 0 * other.factor"),
     dict(prop="C08", name="get_transform_TR: parity rule inverted", file=DK, old="        raise ValueError(f\"parity under TR unknown for {name}\")\n    if (p + der) % 2 == 1:", new="        raise ValueError(f\"parity under TR unknown for {name}\")\n    if (p + der) % 2 == 0:"),
     dict(prop="C08", name="get_transform_Inv: base parity odd", file=DK, old="'CCab_antisym']:  # even before derivative\n        p = 0\n    elif name in ['D', 'AA', 'BB', 'CCab']:\n        return None\n    else:\n        raise ValueError(f\"parity under inversion", new="'CCab_antisym']:  # even before derivative\n        p = 1\n    elif name in ['D', 'AA', 'BB', 'CCab']:\n        return None\n    else:\n        raise ValueError(f\"parity under inversion"),
     dict(prop="C08", name="covariant: generalised derivative keeps the parity of order 0", file=DK, old="                        transformTR=get_transform_TR(name, gender),\n                        transformInv=get_transform_Inv(name, gender)", new="                        transformTR=get_transform_TR(name, commader),\n                        transformInv=get_transform_Inv(name, commader)"),
